@@ -492,6 +492,31 @@ theorem C07_inter_ref_syntax (op cp : Tok) (inner rest : List Tok) (s : BP α)
    fun x => parseInterRef_invalid op cp inner rest s hop hcp hin x,
    fun i => parseInterRef_good op cp inner rest s hop hcp hin i⟩
 
+/-- **… and at the level of the component** (`@&( … )name{}`, INTERMEDIATE_PREPARATIONS).  An ingredient
+    cut into the modifier tokens `&` `(` inner `)`, a body without quantity, a non-blank name without alias
+    separator: whenever the data reader rejects the group with an event `ev` (each case of
+    `C07_inter_ref_syntax` with `rest = []`), `ingredient` returns the ingredient with the `&` flag and
+    no intermediate data and pushes EXACTLY `ev`. -/
+theorem C07_inter_ref_syntax_component (s s1 s2 s3 s4 : BP α) (amp op cp : Tok) (inner : List Tok)
+    (body : Body) (note : Option Text) (ev : Ev α)
+    (hc : Cut .at s (amp :: op :: (inner ++ [cp])) body s1 s2 s3) (hnote : noteP s3 = (note, s4))
+    (hamp : amp.kind = .and) (he : s.ext.has Gen.EXT_INTERMEDIATE_PREPARATIONS = true)
+    (hPI : ∀ s0 : BP α, parseInterRef (α := α) (op :: (inner ++ cp :: [])) s0 =
+      ((none, []), { s0 with evs := s0.evs.push ev }))
+    (hq : body.quantity = none)
+    (ha : s.ext.has Gen.EXT_COMPONENT_ALIAS = false ∨ ∀ t ∈ body.name, t.kind ≠ .or)
+    (hn : (buildText (curOff s2) body.name).isTextEmpty s.cs = false) :
+    (ingredientP s).1 = some (.ingredient
+      ⟨⟨⟨Modifiers.empty.insert Modifiers.REF, tokensSpan (amp :: op :: (inner ++ [cp]))⟩, none,
+        buildText (curOff s2) body.name, none, none, note⟩, ⟨curOff s, curOff s4⟩⟩) ∧
+    Pushed [ev] s (ingredientP s).2 := by
+  have q4 : Same s s4 := hc.same.trans (noteP_same hnote)
+  have ht := ingredientTail_interref_err (α := α) (curOff s) (curOff s4) (curOff s1) (curOff s2) amp op cp inner
+    body note ev s4 hamp (by rw [q4.2.1]; exact he) hPI hq (by rw [q4.2.1]; exact ha) (by rw [q4.1]; exact hn)
+  unfold Sat at ht
+  rw [← ingredientP_cut hc hnote] at ht
+  exact ⟨ht.2, (q4.pushed.trans ht.1).cast (by simp)⟩
+
 /-- **Empty value.**  Value tokens that do not read as a number (or range) and whose text is blank
     (`@x{ %g}`): `parse_value` pushes exactly `empty-value` (error, parse) labelled with the span of
     that text, and returns a value located from the first token to the current offset. -/
